@@ -2,7 +2,7 @@
    True for the repaired variant; for the code as it exists the edge and migration metadata
    columns are erased (finding F7) and the migration check is too weak (finding F14). *)
 From Coq Require Import List ZArith Bool Lia Permutation Sorted ZifyBool.
-From TskVerif Require Import Base.Common C11.Model C11.Spec C11.IntervalProofs C11.SitesProofs.
+From TskVerif Require Import Base.Common Gen.Generated C11.Model C11.Spec C11.IntervalProofs C11.SitesProofs.
 Import ListNotations.
 Open Scope Z_scope.
 
@@ -87,14 +87,14 @@ Qed.
 (* ------------------------------------------------------------------------- *)
 (* ltrim, both variants at once                                                *)
 
-Theorem ltrim_gen_spec mdf cf t t' :
-  ltrim_gen mdf cf t = Ok t' ->
+Theorem ltrim_gen_spec emd gmd cf t t' :
+  ltrim_gen emd gmd cf t = Ok t' ->
   let d := leftmost t in
   let smask := map (fun s => negb (s_pos s <? d)) (t_sites t) in
   t_edges t <> [] /\
   t_L t' = t_L t - d /\ t_nodes t' = t_nodes t /\
-  t_edges t' = map (shift_edge mdf d) (t_edges t) /\
-  t_migs t' = map (shift_mig mdf d) (t_migs t) /\
+  t_edges t' = map (shift_edge emd d) (t_edges t) /\
+  t_migs t' = map (shift_mig gmd d) (t_migs t) /\
   t_sites t' = map (shift_site d) (filter (fun s => negb (s_pos s <? d)) (t_sites t)) /\
   (parents_same_site (t_muts t) ->
    t_muts t' = map (renumber smask (site_mask_of_muts smask (t_muts t)))
@@ -312,3 +312,24 @@ Example trim_repaired_example :
   = Ok (mkT 4 [mkN 1 0 (-1) (-1) []; mkN 0 1 (-1) (-1) []] [mkE 0 4 1 0 [7]]
             [mkS 1 [67] [2]] [mkM 0 0 (-1) None [84] [9]; mkM 0 0 0 None [65] []] [mkG 0 2 0 0 1 0 [109]]).
 Proof. vm_compute. reflexivity. Qed.
+
+(* when the source has been repaired (all three regenerated facts true) the variant the
+   correspondence follows IS the repaired one, so [trim_shift] speaks about the code *)
+Lemma ltrim_current_is_repaired_lemma :
+  C11_ltrim_passes_edge_metadata = true -> C11_ltrim_passes_migration_metadata = true ->
+  C11_trim_check_uses_or = true ->
+  ltrim_current = ltrim_repaired /\ rtrim_current = rtrim_repaired /\ trim_current = trim_repaired.
+Proof.
+  unfold ltrim_current, rtrim_current, trim_current, ltrim_repaired, rtrim_repaired, trim_repaired.
+  intros -> -> ->. repeat split; reflexivity.
+Qed.
+
+(* and as long as none of the three has been repaired it is the code of the pinned commit *)
+Lemma ltrim_current_is_pinned_lemma :
+  C11_ltrim_passes_edge_metadata = false -> C11_ltrim_passes_migration_metadata = false ->
+  C11_trim_check_uses_or = false ->
+  ltrim_current = ltrim /\ rtrim_current = rtrim /\ trim_current = trim.
+Proof.
+  unfold ltrim_current, rtrim_current, trim_current, ltrim, rtrim, trim.
+  intros -> -> ->. repeat split; reflexivity.
+Qed.
